@@ -31,7 +31,8 @@ def performs (handler failAt : String) : Bool :=
 def handle (op : String) (args : List String) (impl : String) : Option Verdict :=
   match op, args with
   | "life", [kind, conf, k, nh, cfgStart, flags, stored0, boot, lifes]
-  | "lifedb", [kind, conf, k, nh, cfgStart, flags, stored0, boot, lifes] => some <| Id.run do
+  | "lifedb", [kind, conf, k, nh, cfgStart, flags, stored0, boot, lifes]
+  | "lifereal", [kind, conf, k, nh, cfgStart, flags, stored0, boot, lifes] => some <| Id.run do
     let some kind := parseKind kind | return bad
     let some conf := conf.toInt? | return bad
     let some k := k.toInt? | return bad
@@ -45,7 +46,7 @@ def handle (op : String) (args : List String) (impl : String) : Option Verdict :
     if k == 0 && kind != .btc then return ⟨"panic", impl == "panic", "life:k=0"⟩
     let m := runAll cfg w stored0 ls
     let ok := match parseHist impl with
-      | some h => P05 cfg w ls h
+      | some h => P05 cfg w stored0 ls h
       | none => false
     let crashed := ls.any (fun l => l.any (fun r => r.2.isSome))
     let panics := decide ((lifes.splitOn ":p").length > 1)
